@@ -19,6 +19,7 @@ import (
 	"github.com/yandex/mysync/internal/mysql"
 
 	"github.com/yandex/mysync/internal/mysql/gtids"
+	"github.com/yandex/mysync/internal/verif/sim"
 	"github.com/yandex/mysync/internal/verif/vt"
 )
 
@@ -177,7 +178,67 @@ type c14Case struct {
 	// Cfg: the bound the call runs with is the one the switch helper derives from this configuration
 	// (as performSwitchover does); Bound then holds the configured priority_choice_max_lag, which is
 	// what the statement's "configured bound" means to the oracle
-	Cfg *c14Cfg `json:"config,omitempty"`
+	Cfg  *c14Cfg  `json:"config,omitempty"`
+	Live *c14Live `json:"live,omitempty"`
+}
+
+// c14Live: the choice as the daemon makes it. h2 carries priority 10, h3 priority 0, both caught up and
+// without lag; a switchover away from h1 is pending; one READ of the coordination service in the
+// manager's first iteration fails (FailAt < 0: none). Whatever is promoted within three iterations
+// must be h2.
+type c14Live struct {
+	FailAt  int `json:"failing_read"`
+	Flavour int `json:"error_flavour"` // 0 connection closed (retried by the client), 1 no server (not retried)
+}
+
+func c14LiveRun(r *vt.Run, c c14Case) (points []sim.Point) {
+	r.Eval()
+	spec := Spec{HA: []string{"h1", "h2", "h3"}, Conf: map[string]string{"failover": "false", "slave_catch_up_timeout": "6s",
+		"wait_start_replication_timeout": "2s", "replication_convergence_timeout_switchover": "10s"}}
+	Bubble(r.T, spec, func(h *H) {
+		h.BuildConverged()
+		w := h.W
+		w.LogStmts = r.Replay != nil
+		w.ZK.Put(vns+"/ha_nodes/h2", `{"priority":10}`)
+		w.ZK.Put(vns+"/switch", jsonStr(Switchover{From: "h1", Cause: CauseManual, InitiatedBy: "test", InitiatedAt: time.Now(), MasterTransition: SwitchoverTransition}))
+		promoted := ""
+		w.OnApply = append(w.OnApply, func(ap *sim.Applied) {
+			if ap.Effect && ap.Call.Kind == "sql" && ap.Call.Op == "SET_WRITABLE" && ap.Call.Target != "h1" && promoted == "" {
+				promoted = ap.Call.Target
+			}
+		})
+		mgr := h.Start("h1")
+		for it := 0; it < 3 && promoted == ""; it++ {
+			h.InjectHealth()
+			base := len(w.Trace)
+			if it == 0 && c.Live.FailAt >= 0 {
+				w.Plan[base+c.Live.FailAt] = sim.Deviation{At: base + c.Live.FailAt, Kind: sim.DevErr, Arg: c.Live.Flavour}
+			}
+			h.Tick(mgr)
+			if it == 0 {
+				points = append([]sim.Point(nil), w.Trace[base:]...)
+			}
+			w.Advance(5 * time.Second)
+		}
+		if len(w.Panics) > 0 || len(w.Unknown) > 0 {
+			r.Violate("C14/0-engine", fmt.Sprintf("panics=%v unknown=%v", w.Panics, w.Unknown), c)
+			return
+		}
+		r.Outcome("live-promoted=" + promoted)
+		if promoted != "" && promoted != "h2" {
+			what := "no failing call"
+			if c.Live.FailAt >= 0 && c.Live.FailAt < len(points) {
+				what = fmt.Sprintf("failing read %s %s (flavour %d)", points[c.Live.FailAt].Op, points[c.Live.FailAt].Target, c.Live.Flavour)
+			}
+			r.Violate("C14/5-top-priority-within-bound/as-the-daemon-collects-the-candidates", fmt.Sprintf("h2 (priority 10, no lag, caught up) was offered but %s was promoted; %s", promoted, what), c)
+		}
+		if r.Replay != nil {
+			for _, l := range w.StmtLog {
+				r.Logf("%s", l)
+			}
+		}
+	})
+	return
 }
 
 type c14Cfg struct {
@@ -363,8 +424,30 @@ func checkC14(r *vt.Run) {
 	}
 	var rc c14Case
 	if r.ReplayInto(&rc) {
+		if rc.Live != nil {
+			c14LiveRun(r, rc)
+			return
+		}
 		c14Run(r, fam, rc)
 		return
+	}
+	// the candidates as the daemon collects them (positions from SQL, priorities from the coordination
+	// service): one failing read at every read of the first iteration (b = 1), two error flavours
+	if r.Mine(0) {
+		pts := c14LiveRun(r, c14Case{Live: &c14Live{FailAt: -1}})
+		n := 0
+		for i, p := range pts {
+			if p.Fails || p.Mut || p.Kind != "zk" {
+				continue
+			}
+			for fl := 0; fl < 2; fl++ {
+				cc := c14Case{Live: &c14Live{FailAt: i, Flavour: fl}}
+				r.Crumb(cc)
+				c14LiveRun(r, cc)
+				n++
+			}
+		}
+		r.Add("live_failing_reads", n)
 	}
 	prios := []int64{0, 1, 5}
 	lags := []float64{0, 59, 60, 61, 200, 99999999}
